@@ -246,20 +246,27 @@ where
             _ => {
                 let mut updated = false;
                 let mut offset = 0;
+                //new items are appended unordered, only the original part can be searched with binary search
+                let origlen = self.array.len();
                 for item in other.iter() {
                     if self.sorted && other.sorted {
-                        //optimisation if both are sorted
-                        match self.array[offset..].binary_search(&item) {
-                            Ok(index) => offset = index + 1,
+                        //optimisation if both are sorted (the index returned is relative to the slice)
+                        match self.array[offset..origlen].binary_search(&item) {
+                            Ok(index) => offset += index + 1,
                             Err(index) => {
-                                offset = index + 1;
+                                offset += index;
                                 updated = true;
                                 self.add_unchecked(item);
                             }
                         }
+                    } else if self.sorted {
+                        if self.array[..origlen].binary_search(&item).is_err() {
+                            updated = true;
+                            self.add_unchecked(item);
+                        }
                     } else {
                         if !self.contains(&item) {
-                            //will do either binary or linear search
+                            //linear search
                             updated = true;
                             self.add_unchecked(item);
                         }
